@@ -73,6 +73,13 @@ pub fn replay(cases: &str, verdicts: &str) {
             num_check(&mut v, "Matrix.var", guard(|| mx.var()), evar);
             num_check(&mut v, "std", guard(|| std(&x)), evar.sqrt());
             num_check(&mut v, "Vector.std", guard(|| vx.std()), evar.sqrt());
+            // a vector with itself, passed as the very same slice: covariance = variance (Inv_Laws), sample covariance = sample variance
+            num_check(&mut v, "covariance(x, x) same slice", guard(|| covariance(&x, &x)), evar);
+            if n >= 2 {
+                num_check(&mut v, "sample_covariance(x, x) same slice", guard(|| sample_covariance(&x, &x)), esvar);
+                num_check(&mut v, "sample_covariance_onepass(x, x) same slice", guard(|| sample_covariance_onepass(&x, &x)), esvar);
+                num_check(&mut v, "sample_covariance_online(x, x) same slice", guard(|| sample_covariance_online(&x, &x)), esvar);
+            }
             // population covariance is defined from one observation on (it is 0 there)
             if n == 1 { num_check(&mut v, "covariance", guard(|| covariance(&x, &y)), ecov); }
             if n >= 2 {
